@@ -7,7 +7,7 @@ full = "--full" in sys.argv
 sel = [a for a in sys.argv[1:] if not a.startswith("--")]
 env = dict(os.environ)
 if not full:
-    env["VERIF_SKIP_BUILDS"] = "miri"
+    env["VERIF_SKIP_BUILDS"] = "miri,fuzz"
 bad = []
 def sh(cmd, **kw):
     return subprocess.run(cmd, shell=True, stdout=subprocess.PIPE, stderr=subprocess.STDOUT, text=True, **kw)
